@@ -200,6 +200,11 @@ func genC18Registry(r *Rng) *Scenario {
 		ex.Names = append(ex.Names, "withlayout")
 		ex.NotNames = append(ex.NotNames, "layouts/main")
 		ex.Expect["withlayout"] = "<html><b>WL 7</b></html>"
+		if r.Chance(40) {
+			// a layout that itself extends the other layout: it declares a reserve, so it is a layout too
+			add("layouts/section"+ext, `@use("layouts/main")`+"\n"+`@insert("content")<section>@reserve("inner")</section>@end`, "layout")
+			ex.NotNames = append(ex.NotNames, "layouts/section")
+		}
 		if r.Chance(50) {
 			// the layout referenced through a spelling the file system resolves to the same file
 			sp2 := Pick(r, []string{"layouts//main", "./layouts/main", "layouts/../layouts/main", "layouts/./main"})
